@@ -31,7 +31,7 @@ Labels ==
          (IF ~Same3(E.copy, CopyRes(in)) THEN {"C14-copy-differs"} ELSE {})
     \cup (IF ~Same3(E.other, E.before) THEN {"C14-copy-shares-state"} ELSE {})
     [] k = "mount" ->
-         (IF E.tooci # [x \in {in.k} |-> in.v] THEN {"C14-mount-to-oci"} ELSE {})
+         (IF E.tooci # [x \in {in.k} |-> in.v] \/ E.toociq # [x \in {in.k} |-> in.v] THEN {"C14-mount-to-oci"} ELSE {})
     \cup (IF E.back # [x \in {in.k} |-> in.v] THEN {"C14-mount-from-oci"} ELSE {})
     \cup (IF E.alias THEN {"C14-mount-shares-state"} ELSE {})
     [] k = "device" ->
